@@ -219,3 +219,94 @@ Proof.
   - unfold local_recips. apply Forall_forall. intros rq (u & -> & Hu)%elem_of_list_fmap. cbn.
     apply elem_of_list_In, filter_In in Hu as [Hu _]. apply (Hq0 j u); [lia|by apply elem_of_list_In].
 Qed.
+
+(** * C07 composed over the SUBSCRIBE step: after the SUBACK the session is sent exactly the
+    messages [Get] returns for each of its filters (in the mount point), in filter order, on its
+    own connection, with the mount point trimmed and the stored flags — and nothing else is
+    written to anybody in that step.  Which messages [Get] returns is [get_exactly_matching]. *)
+Definition sub_f (s : sess) (clk : Z) := λ (acc : node * sess) (fq : string * Z),
+  let pat := prefix_mp (ss_mp s) fq.1 in
+  (mutate acc.1 (sub_create (n_d acc.1) (ss_id s) pat fq.2 clk), add_topic acc.2 pat).
+
+Lemma add_topic_keeps s t : ss_id (add_topic s t) = ss_id s ∧ ss_mp (add_topic s t) = ss_mp s ∧ ss_conn (add_topic s t) = ss_conn s.
+Proof. unfold add_topic. by destruct (existsb _ _). Qed.
+
+Lemma sub_fold_keeps s clk fs : ∀ n0 s0, let r := fold_left (sub_f s clk) fs (n0, s0) in
+  n_log r.1 = n_log n0 ∧ n_coff r.1 = n_coff n0 ∧ n_reg r.1 = n_reg n0 ∧ d_ret (n_d r.1) = d_ret (n_d n0) ∧
+  ss_id r.2 = ss_id s0 ∧ ss_mp r.2 = ss_mp s0 ∧ ss_conn r.2 = ss_conn s0.
+Proof.
+  induction fs as [|fq fs IH]; intros n0 s0; cbn [fold_left]; [done|].
+  destruct (IH (sub_f s clk (n0, s0) fq).1 (sub_f s clk (n0, s0) fq).2) as (H1 & H2 & H3 & H4 & H5 & H6 & H7).
+  rewrite <- surjective_pairing in H1, H2, H3, H4, H5, H6, H7. cbn zeta.
+  rewrite H1, H2, H3, H4, H5, H6, H7. unfold sub_f. cbn [fst snd].
+  destruct (add_topic_keeps s0 (prefix_mp (ss_mp s) fq.1)) as (A1 & A2 & A3). rewrite A1, A2, A3. done.
+Qed.
+
+Definition replay_f (bad : list string) (sid : string) := λ (acc : node * list eobs) (qm : Z * lmsg),
+  let r := send bad acc.1 [(sid, qm.1)] qm.2 in (r.1, (acc.2 ++ r.2)%list).
+Lemma replay_fold_q0 bad sid replay : ∀ n acc, Forall (λ qm : Z * lmsg, qm.1 = 0) replay →
+  fold_left (replay_f bad sid) replay (n, acc) = (n, acc ++ flat_map (λ qm, q0_out bad n qm.2 (sid, 0)) replay).
+Proof.
+  induction replay as [|[q m] rest IH]; intros n acc Hall; cbn [fold_left flat_map]; [by rewrite app_nil_r|].
+  apply Forall_cons in Hall as [Hq Hall]. cbn in Hq. subst q. unfold replay_f at 2. cbn [fst snd].
+  rewrite (send_q0_exact bad [(sid, 0)] n m) by (by repeat constructor). cbn [fst snd flat_map]. rewrite app_nil_r.
+  rewrite IH by done. by rewrite <- app_assoc.
+Qed.
+
+Definition replay_of (d : dstate) (mp : string) (fs : list (string * Z)) : list (Z * lmsg) :=
+  flat_map (λ fq, map (λ r, (fq.2, LMsg (p_topic (r_pub r)) (p_payload (r_pub r)) (p_qos (r_pub r)) (p_retain (r_pub r)) (p_dup (r_pub r))))
+                      (ret_get d (prefix_mp mp fq.1))) fs.
+Lemma replay_of_ret d d' mp fs : d_ret d' = d_ret d → replay_of d' mp fs = replay_of d mp fs.
+Proof. intros H. unfold replay_of, ret_get. by rewrite H. Qed.
+Lemma replay_of_q0 d mp fs : Forall (λ fq : string * Z, fq.2 = 0) fs → Forall (λ qm : Z * lmsg, qm.1 = 0) (replay_of d mp fs).
+Proof.
+  intros H. unfold replay_of. apply Forall_forall. intros qm Hin%elem_of_list_In%in_flat_map. destruct Hin as (fq & Hfq & Hqm).
+  apply in_map_iff in Hqm as (r & <- & _). cbn. rewrite Forall_forall in H. apply H. by apply elem_of_list_In.
+Qed.
+
+Lemma flat_map_flat_map' {A B C} (f : A → list B) (g : B → list C) l : flat_map g (flat_map f l) = flat_map (λ x, flat_map g (f x)) l.
+Proof. induction l as [|x l IH]; cbn; [done|]. by rewrite flat_map_app, IH. Qed.
+Lemma flat_map_map' {A B C} (h : A → B) (g : B → list C) l : flat_map g (map h l) = flat_map (λ x, g (h x)) l.
+Proof. induction l as [|x l IH]; cbn; [done|]. by rewrite IH. Qed.
+Lemma flat_map_nil' {A B} (l : list A) : flat_map (λ _ : A, @nil B) l = [].
+Proof. by induction l. Qed.
+
+Theorem subscribe_step_spec seen cl c k s mid fs clk :
+  find_conn cl c = Some k → c_closed k = false → c_sid k = Some (ss_id s) →
+  alookup (ss_id s) (n_reg (getn cl (c_node k))) = Some s →
+  quiescent cl → Forall (λ fq : string * Z, fq.2 = 0) fs →
+  (step seen cl (ESubscribe c mid fs clk)).2 =
+    wout (cl_bad cl) c (OSubAck mid (map snd fs)) ++
+    flat_map (λ fq, flat_map (λ r, wout (cl_bad cl) (ss_conn s)
+                                     (OPublish (trim_mp (ss_mp s) (p_topic (r_pub r))) (p_payload (r_pub r)) 0 (p_retain (r_pub r)) (p_dup (r_pub r)) 0))
+                             (ret_get (n_d (getn cl (c_node k))) (prefix_mp (ss_mp s) fq.1))) fs ++
+    dl s.
+Proof.
+  intros Hk Hcl Hsid Hs Hq Hq0.
+  assert (Hi : (c_node k < nlen cl)%nat).
+  { destruct (lt_dec (c_node k) (nlen cl)) as [|Hge]; [done|]. rewrite getn_out_of_range in Hs by lia. done. }
+  unfold step. cbn [step_raw]. unfold do_subscribe, with_session. rewrite Hk, Hcl, Hsid, Hs.
+  set (i := c_node k) in *. set (n := getn cl i) in *.
+  change (fold_left _ fs (n, s)) with (fold_left (sub_f s clk) fs (n, s)).
+  destruct (sub_fold_keeps s clk fs n s) as (K1 & K2 & K3 & K4 & K5 & K6 & K7). cbn zeta in *.
+  destruct (fold_left (sub_f s clk) fs (n, s)) as [n1 s1]. cbn [fst snd] in *.
+  set (n2 := sess_update n1 s1).
+  set (rp := flat_map _ fs).
+  set (fr := fold_left _ rp (n2, [])).
+  assert (Hfr : fr = (n2, flat_map (λ qm, q0_out (cl_bad cl) n2 qm.2 (ss_id s, 0)) (replay_of (n_d n) (ss_mp s) fs))).
+  { unfold fr, rp. change (flat_map _ fs) with (replay_of (n_d n2) (ss_mp s) fs).
+    rewrite (replay_of_ret (n_d n) (n_d n2) (ss_mp s) fs) by exact K4.
+    change (fold_left _ (replay_of (n_d n) (ss_mp s) fs) (n2, [])) with (fold_left (replay_f (cl_bad cl) (ss_id s)) (replay_of (n_d n) (ss_mp s) fs) (n2, [])).
+    by rewrite replay_fold_q0 by (by apply replay_of_q0). }
+  rewrite Hfr. clear Hfr fr rp. cbn [fst snd app].
+  rewrite (drain_all_spec (LMsg "" "" 0 false false) (λ _, false)).
+  - unfold out_of. rewrite flat_map_nil', app_nil_r. f_equal. f_equal.
+    unfold replay_of. rewrite flat_map_flat_map'. apply flat_map_ext. intros fq.
+    rewrite flat_map_map'. apply flat_map_ext. intros r.
+    unfold q0_out, n2, sess_update. cbn [fst snd n_reg set_reg l_topic l_payload l_retain l_dup].
+    rewrite K5, alookup_aset_eq, K6, K7. done.
+  - intros j Hj. unfold nlen in Hj. rewrite setn_length in Hj. rewrite getn_setn_gen.
+    destruct (Nat.eqb i j && Nat.ltb i (nlen cl)) eqn:E.
+    + apply andb_true_iff in E as [->%Nat.eqb_eq _]. unfold n2, sess_update. cbn [n_coff n_log set_reg]. rewrite K2, K1. by apply Hq.
+    + by apply Hq.
+Qed.
